@@ -78,8 +78,10 @@ func FuzzC09(f *testing.F) {
 				// raw word from the input (valid or invalid encodings, bounded length field)
 				copy(w[:], common.RightPadBytes(content, 32))
 				if w[31]&1 == 1 {
-					for i := 0; i < 29; i++ {
-						w[i] = 0 // keep the stored length below 2^16 (huge lengths are C20's open finding)
+					for i := 0; i < 30; i++ {
+						// keep the stored length below 2^15: huge lengths are C20's open finding, and
+						// an input that runs for seconds gets the fuzz worker killed (10 s guard)
+						w[i] = 0
 					}
 				}
 			} else if n < 32 {
